@@ -16,7 +16,7 @@ from . import common
 
 LEVEL = 'other'
 EXPLANATION = (
-    'Static analysis (inductive invariant by folding one definition over all abstract pre-states). Branch.append is folded from source over every pre-state (set of constants/worlds on the branch, high-water mark) that satisfies the invariant "every constant/world on the branch is below the mark" and every arriving node over a small universe; the post-state must satisfy the invariant again, contain the arriving items, and do so before AFTER_ADD is emitted. Branch.copy is folded to show the copy owns its containers. Who-may-write for the marks and sets, new_constant/new_world returning the marks, CoordsItem.next being the successor in the sort order, and the def-use of every witness in every rule schema (fresh constant/world taken from the target branch) are checked. (R6) which slots are witness slots is decided semantically: a quantifier/modal slot that only instantiates existing items must be sound under that reading.')
+    'Static analysis (inductive invariant by folding one definition over all abstract pre-states). Branch.append is folded from source over every pre-state (set of constants/worlds on the branch, high-water mark) that satisfies the invariant "every constant/world on the branch is below the mark" and every arriving node over a small universe; the post-state must satisfy the invariant again, contain the arriving items, and do so before AFTER_ADD is emitted. Branch.copy is folded to show the copy owns its containers. Who-may-write for the marks and sets, new_constant/new_world returning the marks, CoordsItem.next being the successor in the sort order, and the def-use of every witness in every rule schema (fresh constant/world taken from the target branch) are checked. (R6) which slots are witness slots is decided semantically: a quantifier/modal slot that only instantiates existing items must be sound under that reading. new_constant / new_world / Branch.__init__ / the closed-branch guard are folded; who-may-write is closed under private helpers of the owners.')
 TRUSTED = ['CPython ast', 'sa.minieval', 'sa.schema extractor', 'Python set/max semantics']
 ASSUMPTIONS = ['constants are modelled as integers ordered like (subscript, index) -- justified by the CoordsItem.next/sorting fold',
                'every node reaches a branch through Branch.append (C01.R3 who-may-call)']
@@ -248,9 +248,10 @@ def r2(ctx, rep):
     for name, attr in (('new_constant', '_nextconst'), ('new_world', '_nextworld')):
         fn = m.func(COMMON, f'Branch.{name}')
         rep.consult(m.loc(COMMON, fn) + f' Branch.{name}')
-        b_ = Obj('branch', _nextconst='MARKC', _nextworld='MARKW')
+        markc = K(3)
+        b_ = Obj('branch', _nextconst=markc, _nextworld=7)
         r = itn.safe(fn, [b_])
-        ok = r == {'_nextconst': 'MARKC', '_nextworld': 'MARKW'}[attr] and b_._nextconst == 'MARKC' and b_._nextworld == 'MARKW'
+        ok = (r is markc if attr == '_nextconst' else r == 7) and b_._nextconst is markc and b_._nextworld == 7
         rep.instance(R2, ok=ok, nontrivial=name)
         if not ok:
             rep.finding(R2, f'C06.R2/{name}', m.loc(COMMON, fn), f'Branch.{name}', f'returns {r!r}, not the mark self.{attr} unmodified')
